@@ -25,6 +25,9 @@ def run(repo, run, tier):
     rid = run.rule("C08.5", "the samples that classify a crossing (rising / falling) are taken at root -/+ a SIGNED fraction of the step (t_next - t_prev): "
                             "'before' and 'after' follow the direction of integration, so a directional event is not filtered out on backward runs", floor=4)
     sample_kinds(repo, run, rid, "C08.5")
+    # 'does not depend on the scale of the event function': the vectorised root search decides sign relations from signs, not from products that underflow
+    from .c14 import product_sign_tests
+    product_sign_tests(repo, run, rule_id="C08.6", funcs=("brentsrootvec",))
 
 
 def pruning(repo, run, m):
